@@ -255,7 +255,7 @@ def dyadVerb (name : String) (a b : Val) : Option Val :=
   | "{y-x}" => refDyad "-" b a
   | "{(2*x)+y}" => (refDyad "*" (.int 2) a).bind fun t => refDyad "+" t b
   | "{x,y}" => refJoin a b
-  | "{x,,y}" => refJoin a (.list [b])
+  | "{x,,y}" => refJoin a (match b with | .chr c => .str [c] | _ => .list [b])   -- ,0ca is "a"
   | op => refDyad op a b
 
 def monadVerb (name : String) (a : Val) : Option Val :=
@@ -264,7 +264,7 @@ def monadVerb (name : String) (a : Val) : Option Val :=
   | "{-x}" => refMonad "-" a
   | "{x,x}" => refJoin a a
   | "{#x}" => refMonad "#" a
-  | "{,x}" => some (.list [a])
+  | "{,x}" => some (match a with | .chr c => .str [c] | _ => .list [a])
   | "{x}" => some a
   | _ => none
 
